@@ -33,8 +33,8 @@ def check_alphabet() -> T.List[str]:
 
 def lit_str(rng, s: str) -> str:
     """a source literal whose value is `s`"""
-    if s and "'" not in s and '\\' not in s and rng.random() < 0.12 and not s.endswith("'"):
-        return "'''" + s + "'''"
+    if s and "'" not in s and rng.random() < 0.12:
+        return "'''" + s + "'''"        # raw: a backslash in the value is a backslash in the source
     out = []
     for c in s:
         if c == "'":
@@ -239,10 +239,11 @@ class Gen:
             if cands and rng.random() < 0.7:
                 parts.append('@' + rng.choice(cands) + '@')
             else:
-                parts.append(rng.choice(['x', ' ', '@', 'a@b', '@@', '@1@', ':']))
+                parts.append(rng.choice(['x', ' ', '@', 'a@b', '@@', '@1@', ':', '\\n', '\\t', '\\\\', '\\x41', '\\101',
+                                         '\\u20ac', 'C:\\temp\\new', '\\q']))
         body = ''.join(parts)
-        if rng.random() < 0.1:
-            return "f'''" + body + "'''"
+        if rng.random() < 0.25:
+            return "f'''" + body + "'''"      # raw as well: no escape is decoded here
         return "f'" + body + "'"
 
     def tern(self, ty: T.Any, d: int) -> T.Tuple[str, int]:
